@@ -642,7 +642,7 @@ def c05_histories(run, Nmax=3, walks=60, steps=12):
                 k = int(rng.integers(1, N + 1))
                 obs = commuting_obs(rng, N, k)
                 gsx = np.array([g for g, _ in obs]); psx = np.array([p for _, p in obs])
-                if np.linalg.matrix_rank(gsx) < len(obs) or any(not g.any() for g in gsx):
+                if len(obs) < k or gf2_rank(gsx) < len(obs):      # independent over GF(2), as the property requires
                     continue
                 st = pc.stabilizer_state(PL(gsx, psx))
             else:
